@@ -85,6 +85,13 @@ class Sched:
                 self.cv.wait(0.005)
                 if time.time() - t0 > 2:
                     return "stuck"
+            # ... and until the line has been executed: the thread is parked at its next line, finished, or blocked inside the line
+            # (on the lock); only then may another thread be given a line, so that the recorded order is the order of execution
+            t0 = time.time()
+            while not self.waiting[i] and not self.done[i]:
+                self.cv.wait(0.002)
+                if time.time() - t0 > BLOCK_TIMEOUT:
+                    break
             return True
 
 def make_call(cls, k):
@@ -115,6 +122,20 @@ def make_call(cls, k):
         # a prefix with a non-integral exponent (what products of SI and IEC prefixes are), constructed directly and as such a product
         e = k + 0.5
         return [lambda: Prefix(3, e), lambda: Prefix(3, e), lambda: Prefix(3, e)], lambda: len([p for p in Prefix._known.values() if getattr(p, "base", None) == 3 and getattr(p, "exponent", None) == e])
+    if cls == "PrefixDecimal":
+        # a Decimal exponent combined with a prefix of another base: the exponent of the product is computed in Decimal arithmetic, whose
+        # context (precision) is per thread -- every thread, and the importing thread afterwards, must arrive at the same prefix
+        from decimal import Decimal
+        from measured.iec import Kibi, Mebi
+        half = Prefix(10, Decimal(k) + Decimal("0.5"))
+        calls = [lambda: half * Kibi, lambda: half * Kibi, lambda: half * Kibi]
+        return calls, lambda: 1
+    if cls == "PrefixDecimalUnit":
+        from decimal import Decimal
+        from measured.iec import Kibi
+        from measured.si import Meter as M_
+        half = Prefix(10, Decimal(k) + Decimal("0.5"))
+        return (lambda: half * (Kibi * M_)), lambda: 1
     if cls == "PrefixMixed":
         from measured.iec import Kibi
         a = Prefix(10, 1000 + k)
@@ -175,13 +196,15 @@ def run_case(case):
             S.step(i)
     for t in ths: t.join(2)
     objs = [r for r in results if r is not None]
+    labels = [None if r is None else next(j for j, r2 in enumerate(results) if r2 is r) for r in results]
     later = (call[0] if isinstance(call, list) else call)()
     return {"same": len({id(o) for o in objs}) == 1 and len(objs) == n,
             "distinct_objects": len({id(o) for o in objs}),
             "later_same": bool(objs) and all(later is o for o in objs),
             "table_entries": count_entries(), "errors": [e for e in errors if e],
             "finished": all(S.done), "blocked_switches": blocked, "lines": len(S.trace),
-            "trace": S.trace[:60]}
+            "trace": S.trace[:60], "labels": labels,
+            "trace_full": S.trace[:600] if case["cls"] in ("Dimension", "Prefix", "Unit") else None}
 
 def run(data):
     return {"results": [run_case(c) for c in data["cases"]]}
